@@ -40,8 +40,13 @@ META = {
                   "class). The real code is driven at quiescent points only (one environment step, then run to quiescence); finer races "
                   "(select with two ready cases) are covered on the specification only. 5-6 instances / 4 zones by sampling. Legacy "
                   "ReplicationSet.Do (<=3, thorough 4 instances; half-delay clock; bound both ways, gen/replay only where no two delayed "
-                  "goroutines compete for a forceStart token) and the multi-set variant (2..3 sets of 1..2 instances, default tracker, "
-                  "no minimisation, bound code->spec only) have their own modules; the multi-set in-flight tracker is not modelled. "
+                  "goroutines compete for a forceStart token) and the multi-set variant (1..3 sets of 1..2 instances, default tracker, "
+                  "no minimisation, bound code->spec only) have their own modules. The multi-set in-flight tracker / workersCtx 'all requests "
+                  "completed' rule is modelled (CbDone: callbacks call their CancelCauseFunc at any point; exhaustive for <<1>>, <<1,1>>, thorough <<2,1>>; "
+                  "negative controls and reachability witnesses in the thorough tier) and bound code->spec (depth-first for 1 set and two "
+                  "1-instance sets incl. sets sharing their InstanceDesc, seeded sampling for 3 sets / 2 instances per set); only a release "
+                  "that comes too EARLY is observable through the exported API, a workersCtx that is never released is not. "
+                  "IncludeReplicaCount is checked Go-side (every invocation's context carries the set size). "
                   "Quick checks deadlock freedom; the liveness (termination) configurations run in the thorough tier.",
     "technique": "TLA+ specifications (QuorumRead.tla, QuorumDo.tla, QuorumMulti.tla) model-checked by TLC; gen/replay (QuorumReadGen.tla, QuorumDoGen.tla) and "
                  "record/validate (Quorum{Read,Do,Multi}Trace.tla) conformance",
@@ -101,15 +106,30 @@ def model_check(ctx, module):
     # quick: deadlock freedom (NextD) stands in for termination; the liveness configurations are thorough-only
     cfgs = {"QuorumRead": ["MC_quick.cfg"] if quick else ["MC_quick.cfg", "MC_live.cfg", "MC_thorough.cfg", "MC_live3.cfg"],
             "QuorumDo": ["MC_do3.cfg"] if quick else ["MC_do.cfg", "MC_do_live.cfg"],
-            "MCQuorumMulti": ["MC_multi_quick.cfg"] if quick else ["MC_multi_thorough.cfg", "MC_multi_live.cfg"]}[module]
+            "MCQuorumMulti": ["MC_multi_quick.cfg", "MC_multi_done_quick.cfg"] if quick else
+                             ["MC_multi_thorough.cfg", "MC_multi_live.cfg", "MC_multi_done_quick.cfg", "MC_multi_done.cfg", "MC_multi_done_live.cfg"]}[module]
     for cfg in cfgs:
         r = tlc(ctx, module, cfg=cfg, timeout=3000, workers=WORKERS,
-                coverage=(not quick and cfg in ("MC_quick.cfg", "MC_do.cfg", "MC_multi_live.cfg")))
+                coverage=(not quick and cfg in ("MC_quick.cfg", "MC_do.cfg", "MC_multi_done_quick.cfg")))
         ctx.require_tlc_ok(r, cfg)
         if r.distinct < 1000:
             incon("%s explored only %d states" % (cfg, r.distinct))
         if r.coverage_zero:
             incon("%s: actions never taken: %s" % (cfg, r.coverage_zero))
+
+
+# Negative controls / reachability witnesses of the in-flight tracker rule: TLC must REFUTE the named invariant
+# (a deliberately wrong tracker breaks the clause; the implication-shaped clauses are not vacuous).
+MUST_VIOLATE = [("MC_multi_neg_ignoreexpect.cfg", "CompletedJustified"), ("MC_multi_neg_firstdone.cfg", "CompletedJustified"),
+                ("MC_multi_wit_completed.cfg", "NeverCompleted"), ("MC_multi_wit_bycallback.cfg", "NeverCompletedByCallback")]
+
+
+def controls(ctx):
+    for cfg, inv in MUST_VIOLATE:
+        r = tlc(ctx, "MCQuorumMulti", cfg=cfg, timeout=1500, workers=2, count=False)
+        if r.violated != inv:
+            incon("control %s: TLC did not refute %s (%s)" % (cfg, inv, r.error or r.violated or "no error"))
+    add_extra(ctx, "controls_refuted", len(MUST_VIOLATE))
 
 
 def env_key(c):
@@ -320,7 +340,7 @@ def record_validate_do(ctx):
 
 
 def record_validate_multi(ctx):
-    env = {}
+    env = {"VERIF_MULTI_SAMPLES": 300 if ctx.tier == "quick" else 4000}
     if os.environ.get("C11_SELFTEST") == "corrupt_trace_multi":
         env["VERIF_CORRUPT_TRACE"] = "5"
     record_validate_simple(ctx, "TestRecordMulti", "QuorumMultiTrace", "multi", env)
@@ -342,6 +362,8 @@ def run(ctx):
         ctx.log("C11_SKIP_MC set: skipping the exhaustive model-checking step")
     else:
         chains = chains + [("model checking " + m, (lambda m=m: model_check(ctx, m))) for m in ("QuorumRead", "MCQuorumMulti", "QuorumDo")]
+        if ctx.tier != "quick":
+            chains.append(("controls", lambda: controls(ctx)))
     errors = []
     with ThreadPoolExecutor(max_workers=PARALLEL or (7 if ctx.tier == "quick" else 4)) as ex:
         futs = [(name, ex.submit(fn)) for name, fn in chains]
